@@ -93,8 +93,18 @@ template <class T> struct Exact {
     T &operator[](long q) { return p[q]; }
     Exact(const Exact &) = delete;
 };
+// One library call with the operation's faults armed.  In the C12 enumeration (strict_enomem) a call
+// that fails while an injected allocation failure fired is re-issued once without faults, and only the
+// final outcome is logged, so that an atomic call gives the fault-free history.
 #define CH_CALL(FN, FAILED, BODY) \
-    { LibCall lc(c, &op); BODY; lc.done(); err = lc.saved_errno; failed = (FAILED); c.log(" %s -> %s errno=%s", FN, failed ? "FAIL" : "ok", failed ? errno_name(err) : "-"); c11_auto(c, FN, failed, err); if (c.violated) return; }
+    for (int ch_try_ = 0, ch_pend_ = 0;; ++ch_try_) { \
+	LibCall lc(c, ch_try_ == 0 ? &op : nullptr); BODY; bool ch_alloc_ = sim_alloc_fault_fired(); lc.done(); err = lc.saved_errno; failed = (FAILED); \
+	c11_auto(c, FN, failed, err); if (c.violated) return; \
+	if (ch_try_ == 0 && failed && ch_alloc_ && c.strict_enomem) { fault_failed(c, FN, err, true); ch_pend_ = err; continue; } \
+	if (ch_try_ == 1 && !failed) fault_recovered(c, FN, ch_pend_, true); \
+	c.log(" %s -> %s errno=%s", FN, failed ? "FAIL" : "ok", failed ? errno_name(err) : "-"); \
+	break; \
+    }
 #define MUST_FAIL(COND, FN, WHY) \
     if ((COND) && !failed && !c.violated) { c.violate("model", std::string(FN) + ":accepted", strf("%s accepted %s", FN, (WHY).c_str())); return; } \
     if ((COND) && failed) c.count("probe.invalid_refused");
@@ -204,7 +214,7 @@ static void run_op(ChWorld &w, const Op &op)
 	    int pmap[2] = {(int)p1, (int)p2};
 	    int rc = 0;
 	    const char *fn = "vnacal_new_add_*";
-	    c.log(" add kind=%d %s type=%d cal=%dx%d meas=%dx%d a=%dx%d ports=%ld,%ld handles=%d,%d", kind, ab ? "ab" : "m", s.type, s.R, s.C, br, bc, ar, ac, p1, p2, h1, h2);
+	    c.log(" add kind=%d %s type=%d cal=%dx%d meas=%dx%d a=%dx%d ports=%ld,%ld", kind, ab ? "ab" : "m", s.type, s.R, s.C, br, bc, ar, ac, p1, p2);
 	    CH_CALL(fn, rc != 0,
 		if (kind == 0) rc = ab ? vnacal_new_add_single_reflect(s.vnp, ap.data(), ar, ac, bp.data(), br, bc, h1, (int)p1) : vnacal_new_add_single_reflect_m(s.vnp, bp.data(), br, bc, h1, (int)p1);
 		else if (kind == 1) rc = ab ? vnacal_new_add_double_reflect(s.vnp, ap.data(), ar, ac, bp.data(), br, bc, h1, h2, (int)p1, (int)p2) : vnacal_new_add_double_reflect_m(s.vnp, bp.data(), br, bc, h1, h2, (int)p1, (int)p2);
@@ -461,6 +471,8 @@ Plan chaos_gen(const std::string &check, const std::string &tier, uint64_t seed,
     double p_bad = rng.pick(std::vector<double>{0.0, 0.1, 0.3, 0.6});
     bool f_vna = rng.chance(0.5), f_yaml = rng.chance(0.3), f_io = rng.chance(0.3);
     double p_fault = rng.chance(0.4) ? 0 : rng.pick(std::vector<double>{0.03, 0.1, 0.3});
+    bool c12 = check.compare(0, 3, "C12") == 0;	// the enumeration adds the faults itself; vnacal_t replacement is left out
+    if (c12) { p_fault = 0; plan.cfg["strict_enomem"] = 1; if (p_bad > 0.3) p_bad = 0.3; }
     plan.cfg["p_bad"] = p_bad; plan.cfg["p_fault"] = p_fault;
     auto code = [&](void) -> long { long raw = rng.below(1000); long cls = rng.chance(p_bad) ? rng.range(6, 9) : rng.range(0, 5); return raw * 10 + cls; };
     auto good = [&](void) -> long { return rng.below(1000) * 10 + rng.range(0, 4); };
@@ -469,6 +481,7 @@ Plan chaos_gen(const std::string &check, const std::string &tier, uint64_t seed,
 	    else if (f_io) { double v = rng.uni(); if (v < 0.3) { f.t = "write.err"; f.n = rng.range(0, 2000); f.e = ENOSPC; } else if (v < 0.5) { f.t = "read.eio"; f.n = rng.range(0, 2000); } else if (v < 0.7) { f.t = "read.eof"; f.n = rng.range(0, 2000); } else if (v < 0.85) f.t = "close.err"; else { f.t = "open.fail"; f.e = EACCES; } o.f.push_back(f); } }
 	return o; };
     long nops = rng.chance(0.5) ? rng.range(3, 20) : rng.range(20, thorough ? 120 : 70);
+    if (c12) nops = rng.range(3, 14);
     // a useful backbone in most runs: session, frequency vector, some standards, solve, add, apply
     auto backbone = [&](int slot) {
 	long type = rng.pick(std::vector<long>{0, 1, 2, 3, 4, 5, 6, 8}) * 10;
@@ -502,7 +515,7 @@ Plan chaos_gen(const std::string &check, const std::string &tier, uint64_t seed,
 	else if (u < 0.92) plan.ops.push_back(mk("prop", {rng.below(3) + 3 * code(), rng.below(NDESC), rng.below(8)}));
 	else if (u < 0.93) plan.ops.push_back(mk("prec", {code(), code()}));
 	else if (u < 0.95) plan.ops.push_back(mk("save", {}));
-	else if (u < 0.965) plan.ops.push_back(mk(rng.chance(0.6) ? "load" : "recreate", {}));
+	else if (u < 0.965) { if (!c12) plan.ops.push_back(mk(rng.chance(0.6) ? "load" : "recreate", {})); }
 	else if (u < 0.97) plan.ops.push_back(mk("names", {code(), rng.below(14), code()}));
 	else if (u < 0.985) plan.ops.push_back(mk("vd", {rng.below(ND), rng.below(6), code(), code(), code(), code()}));
 	else backbone((int)slot);
